@@ -15,6 +15,7 @@
 #include <vector>
 #include <unistd.h>
 #include <sys/wait.h>
+#include <sys/resource.h>
 #include <csignal>
 #include <functional>
 #include <rapidjson/document.h>
@@ -214,6 +215,8 @@ inline int ForkedRunner(size_t total, const std::function<void(size_t)>& fn, uns
 		if (pid == 0)
 		{
 			close(fds[0]);
+			// an input must never be able to take the sandbox down: address space of the child is capped (-> std::bad_alloc)
+			{ struct rlimit rl; rl.rlim_cur = rl.rlim_max = static_cast<rlim_t>(3) << 30; setrlimit(RLIMIT_AS, &rl); }
 			InstallTerminateHandler();
 			signal(SIGALRM, [](int) {
 				fprintf(stdout, "{\"e\":\"Hang\",\"run\":%zu,\"refused\":%s,\"ctx\":\"%s\"}\n", RunIndex(), SeekRefusedGlobal() ? "true" : "false", JsonEscape(TerminateContext()).c_str());
